@@ -7,7 +7,8 @@
    [crc] is universally quantified: nothing depends on what CRC-32C computes.
    The SQL decoder is the one WITH fixes/C07-sql-timestamp-varlong.patch; the unpatched
    one ([decode_sql_orig]) is refuted below. *)
-From KS Require Import lib.Base lib.Varint lib.Outcome lib.Kafka model.Decoders proofs.DecodersProofs proofs.DecodersRoundtrip.
+From Coq Require Import Sorted.
+From KS Require Import lib.Base lib.Varint lib.Outcome lib.Kafka model.Decoders proofs.DecodersProofs proofs.DecodersRoundtrip proofs.DecodersIndex.
 Open Scope Z_scope.
 
 (* The real writer (BuildSegment over NewRecordBatchFromBytes of each batch) succeeds and
@@ -41,6 +42,21 @@ Theorem C07_segment_layout : forall crc interval raws created, raws <> [] -> For
     a_base a = to_signed 64 (be_u (slice (hd [] raws) 0 8)).
 Proof. exact build_segment_shape. Qed.
 Print Assumptions C07_segment_layout.
+
+(* index clause, for ALL batch lists and index intervals: whenever BuildSegment succeeds on
+   batches with strictly increasing base offsets, non-empty payloads and a segment below
+   2 GiB ([batches_ok]), the index entries (IndexBuilder.MaybeAdd) are strictly increasing
+   in offset AND position, every entry is (base offset, start position) of one of the
+   batches, the first batch always has an entry, and the index file is the encoding of
+   exactly these entries *)
+Theorem C07_index_entries : forall crc interval bs created a,
+  build_segment crc interval bs created = Some a -> batches_ok bs 32 ->
+  StronglySorted lt2 (a_entries a) /\
+  Forall (fun e => In e (batch_starts bs 32)) (a_entries a) /\
+  (exists b0 rest, bs = b0 :: rest /\ hd_error (a_entries a) = Some (rb_base b0, 32)) /\
+  a_index a = index_bytes (if interval <=? 0 then 1 else interval) (a_entries a).
+Proof. exact c07_index_entries. Qed.
+Print Assumptions C07_index_entries.
 
 (* the restore scanner sees every record's (timestampDelta, offsetDelta) *)
 Theorem C07_pitr_scan_roundtrip : forall rs rest, Forall record_wf rs ->
